@@ -107,6 +107,15 @@ CHECKS = {
         "Trusted: signatures from the twin run (store independence is C03); the model of which kept nodes are served or completed at the failure point.",
         "DESIGN.md 5/C10",
     ),
+    "C11": (
+        "exploration",
+        "exhaustive enumeration (sharded) of kept-path lists / call-cycle shapes / nested-eval chains rendered to real programs; oracle: "
+        "expected DDS error code, empty execution log, untouched store; well-formed twins must evaluate",
+        "Every enumerated ill-formed program is evaluated by real dds on a pre-populated store; the overlap predicate is additionally "
+        "enumerated over all ordered path lists at function level. Exhaustive within the stated bounds (quick tier strides the largest families).",
+        "Trusted: the renderer of the three program families; self-reference through a higher-order argument is a recorded known finding (KF-C11-self-ho-cycle).",
+        "DESIGN.md 5/C11",
+    ),
 }
 
 NOT_YET = {}
